@@ -68,4 +68,5 @@ func hC03(n, prefix, L, vlen int) {
 
 func H_C03_q()    { hC03(2, 2, 2, 2) }
 func H_C03_tear() { hC03(2, 1, 2, 300) }
+func H_C03_tearhdr() { hC03(2, 1, 2, 490) }
 func H_C03_t()    { hC03(2, 2, 3, 2) }
